@@ -97,7 +97,7 @@ REFINE = {
 EXTRA = {
  "C07": " Partial path: SatDC07Partial.sat_C07_partial extends the liveness theorem to LiqSubCase OR LiqPartialCase (forward simulation of the partial liquidation); every clause of LiqPartialCase has a kernel-evaluated world in which exactly that clause fails and the liquidation fails although the property's premises hold (the exact condition is |realised PnL| + penalty <= margin, not the sign of the ratio).",
  "C08": " Every fault point: Model/Fault.lean is the dispatcher with one injected failure (countdown over every dispatched message); FaultAtomic.fault_fails_tx proves for every k, world and transaction of every kind that a transaction which succeeds although fault k was armed never reached it and has the normal result (a fired fault fails the whole call; stepF_atomic: nothing changes), fault_profile gives the exact profile; the harness's fault mode and the theorem speak about the same indices (the driver compares, per engine transaction and index, whether the model's tree reaches the index and whether the implementation's sub-call exists).",
- "C14": " Registry clause Spec.C14.checkReg (a successful RemoveVamm / AddVamm changes exactly the named entry, nothing else changes the registry): SatExtra3.sat_C14_reg, reachable_extra3, history_extra3.",
+ "C14": " Registry clause Spec.C14.checkReg (a successful RemoveVamm / AddVamm changes exactly the named entry, nothing else changes the registry): SatExtra3.sat_C14_reg, reachable_extra3, history_extra3. Liveness clause Spec.C14.checkPauseLive (a Liquidate / PayFunding refused BECAUSE the engine is paused, judged on the error text): SatExtra4.sat_C14_pauseLive; that the model's handlers do not consult the pause flag is EngineGuards.liquidate_ignores_pause / payFunding_ignores_pause.",
  "C18": " Feed clause Spec.C18F.recordedOk (an accepted submission is exactly one new round with the submitted values, older rounds untouched; latest / n-back answers are judged against what was SUBMITTED): C18FRec.appendPrice_recorded / appendMultiple_recorded.",
  "C20": " Deployment: Engine.instantiate is modelled (Model/Instantiate.lean) and compared with the contract on boundary-biased instantiate probes (EINST lines, incl. collaterals with 0..39 decimals); Inst.instantiate_ok_iff (accepts exactly the in-bounds messages), instantiate_configOK, instantiate_fresh.",
  "C10": " Query view: after every transaction the engine's own answer to Position{vamm, trader} for every deployed market x trading account is compared with the stored records and with its previous answer (only the sender's own answers, or the one a Liquidate names, may change).",
